@@ -1899,3 +1899,222 @@ Proof.
   destruct Hj as [H|[H|[H|[H|[hash [txs [a [_ [_ [_ [_ [Hf Hm]]]]]]]]]]]]; auto.
   exfalso. apply mem_uuid_In in Hm. exact (HR _ Hm Hf).
 Qed.
+
+(* ------------------------------------------------------------------------------------------ *)
+(* 8. C01 at the level of whole steps *)
+
+Lemma touched_no_tracker tb txs h u : find_trk (db_trks tb) u = None -> touched tb txs h u = false.
+Proof.
+  intros Hn. destruct (touched tb txs h u) eqn:E; [|reflexivity].
+  unfold touched in E. apply existsb_exists in E. destruct E as [k [Hk Hc]].
+  apply andb_true_iff in Hc. destruct Hc as [Hu _]. apply uuid_eqb_eq in Hu.
+  exfalso. apply (find_trk_None _ _ Hn). rewrite <- Hu. apply in_map. exact Hk.
+Qed.
+
+Lemma touched_single tb txs h k :
+  NoDup (map trk_uuid (db_trks tb)) -> In k (db_trks tb) ->
+  touchable txs h (reorged tb) k = false -> touched tb txs h (trk_uuid k) = false.
+Proof.
+  intros Hnd Hk Ht. destruct (touched tb txs h (trk_uuid k)) eqn:E; [|reflexivity].
+  unfold touched in E. apply existsb_exists in E. destruct E as [k' [Hk' Hc]].
+  apply andb_true_iff in Hc. destruct Hc as [Hu Ht']. apply uuid_eqb_eq in Hu.
+  pose proof (find_trk_NoDup _ _ Hnd Hk) as F1. pose proof (find_trk_NoDup _ _ Hnd Hk') as F2.
+  rewrite Hu in F2. assert (k' = k) by congruence. subst k'. congruence.
+Qed.
+
+Lemma trk_eta k : k = new_trk (trk_uuid k) (t_dispute k) (t_penalty k) (status_of_row k).
+Proof. destruct k as [l u d p hh c]. destruct c; reflexivity. Qed.
+
+(* the responder's pass leaves a uuid without tracker alone *)
+Lemma responder_keeps_untracked le sc tw hash txs h t' u :
+  r_block_connected le sc tw (index_block hash txs) h = Ok tt t' ->
+  find_trk (db_trks tw) u = None ->
+  find_trk (db_trks t') u = None /\
+  (forall a, app_uuid a = u -> (In a (db_apps tw) <-> In a (db_apps t'))).
+Proof.
+  intros Er Hn. pose proof (r_block_connected_rinv tw txs h le sc _ t' (keys_of_index_block hash txs) Er) as RI.
+  pose proof (touched_no_tracker tw txs h u Hn) as HU. split.
+  - apply find_trk_None_iff. intros Hi. apply in_map_iff in Hi. destruct Hi as [k [Hu Hk]].
+    destruct (rinv_origin _ _ _ _ k RI Hk) as [k0 [Hk0 Hid]]. apply trk_id_inj in Hid. destruct Hid as [Hu0 _].
+    apply (find_trk_None _ _ Hn). rewrite <- Hu, <- Hu0. apply in_map. exact Hk0.
+  - intros a Ha. split.
+    + apply (ri_apps_out _ _ _ _ RI). rewrite Ha. exact HU.
+    + apply (ri_apps_sub _ _ _ _ RI).
+Qed.
+
+(* Stretch: the whole Connect step.  Gatekeeper (purge), watcher (breaches), responder, in the
+   generated order.  For a row whose owner survives the purge and whose locator is in the block:
+   the outcome of the watcher's pass survives the responder's pass of the same block, except that
+   the responder may at once act on the tracker just created when it is `touchable`: its penalty
+   is in this very block (re-stamped ConfirmedIn h), its uuid is in `reorged`, it is stale, or —
+   the corner — it was found in the index exactly IRREVOCABLY_RESOLVED blocks deep and completes
+   immediately. *)
+Theorem connect_step_breaches le t hash txs sc t' x tg :
+  Inv t -> step le t (OConnect hash txs) sc = (t', x) -> not_abort x ->
+  gk_block_connected (fresh t) (gk_height t + 1) = Ok tt tg ->
+  forall a, In a (db_apps tg) -> memN (a_loc a) txs = true -> find_trk (db_trks t) (app_uuid a) = None ->
+  match decrypt (a_blob a) (a_loc a) with
+  | None => dropped t' (app_uuid a)
+  | Some p =>
+      let s := breach_status sc t p in
+      penalty_handled sc t t' p /\
+      (status_accepted s = true ->
+       touchable txs (gk_height t + 1) (reorged t) (new_trk (app_uuid a) (a_loc a) p s) = false ->
+       In a (db_apps t') /\ In (new_trk (app_uuid a) (a_loc a) p s) (db_trks t')) /\
+      (status_rejected s = true -> dropped t' (app_uuid a)) /\
+      (status_accepted s = false -> status_rejected s = false ->
+       In a (db_apps t') /\ find_trk (db_trks t') (app_uuid a) = None)
+  end.
+Proof.
+  intros HI Hstep Hna Eg a Ha Hl Hnt.
+  destruct (connect_ok le t hash txs sc t' x Hstep Hna) as [tg' [tw [Eg' [Ew Er]]]].
+  rewrite Eg in Eg'. injection Eg' as <-.
+  assert (HIg : Inv tg).
+  { pose proof (gk_block_connected_pres Inv (sa_block Inv inv_stable) (fresh t) (gk_height t + 1) (inv_fresh t HI)) as Hp.
+    rewrite Eg in Hp. exact Hp. }
+  assert (HIw : Inv tw).
+  { pose proof (w_block_connected_pres Inv (sb_wr Inv (sa_block Inv inv_stable)) sc tg (cache_block hash txs) (gk_height t + 1) HIg) as Hp.
+    rewrite Ew in Hp. exact Hp. }
+  destruct (gk_block_connected_spec _ _ _ Eg) as [out [_ [_ [_ [Hkg [Heng _]]]]]].
+  cbn [db_trks fresh set_rpc_log] in Hkg. unfold same_engine in Heng. cbn in Heng.
+  assert (Hntg : find_trk (db_trks tg) (app_uuid a) = None).
+  { apply find_trk_None_iff. intros Hi. apply (find_trk_None _ _ Hnt). apply in_map_iff in Hi.
+    destruct Hi as [k [Hu Hk]]. rewrite <- Hu. apply in_map. rewrite Hkg in Hk. apply filter_In in Hk. apply Hk. }
+  pose proof (w_block_connected_breaches sc tg hash txs _ tw HIg Ew a Ha Hl Hntg) as Hb.
+  destruct (w_block_connected_frame sc tg hash txs _ tw HIg Ew) as [_ [_ [_ [_ [_ [_ [_ [Hre _]]]]]]]].
+  pose proof (r_block_connected_rinv tw txs _ le sc _ t' (keys_of_index_block hash txs) Er) as RI.
+  assert (Hdrop : dropped tw (app_uuid a) -> dropped t' (app_uuid a)).
+  { intros [Hda Hdk]. destruct (responder_keeps_untracked le sc tw hash txs _ t' _ Er Hdk) as [Hk' Ha'].
+    split; [|exact Hk']. apply find_app_None_iff. intros Hi. apply in_map_iff in Hi. destruct Hi as [a' [Hu Hia]].
+    apply (find_app_None _ _ Hda). rewrite <- Hu. apply in_map. apply (Ha' a' Hu). exact Hia. }
+  destruct (decrypt (a_blob a) (a_loc a)) as [p|]; [|apply Hdrop; exact Hb].
+  assert (Hbs : breach_status sc tg p = breach_status sc t p) by (apply breach_status_core; symmetry; apply Heng).
+  cbv zeta in Hb |- *. rewrite Hbs in Hb. destruct Hb as [Hev [Hacc [Hrej Hnei]]].
+  split; [|split; [|split]].
+  - destruct (ri_log _ _ _ _ RI) as [evr [Hlr _]]. unfold penalty_handled in *.
+    replace (r_index t) with (r_index tg) by (symmetry; apply Heng).
+    replace (car_memo t) with (car_memo tg) by (symmetry; apply Heng).
+    rewrite Hlr. destruct Hev as [H|[[H1 H2]|[[r H]|H]]]; [left; exact H| | |right; right; right; exact H].
+    + right. left. split; [apply in_or_app; right; exact H1|exact H2].
+    + right. right. left. exists r. apply in_or_app. right. exact H.
+  - intros Hs Htouch. destruct (Hacc Hs) as [Haw [k [Hk [Hu [Hd [Hp Hst]]]]]].
+    assert (Hke : k = new_trk (app_uuid a) (a_loc a) p (breach_status sc t p)).
+    { rewrite (trk_eta k), Hu, Hd, Hp, Hst. reflexivity. }
+    assert (HU : touched tw txs (gk_height t + 1) (trk_uuid k) = false).
+    { apply touched_single; [apply (inv_trks_nodup tw HIw)|exact Hk|].
+      rewrite Hre. replace (reorged tg) with (reorged t) by apply Heng. rewrite Hke. exact Htouch. }
+    split.
+    + apply (ri_apps_out _ _ _ _ RI); [rewrite <- Hu; exact HU|exact Haw].
+    + rewrite <- Hke. apply (ri_trks_out _ _ _ _ RI k HU). exact Hk.
+  - intros Hs. apply Hdrop, Hrej, Hs.
+  - intros H1 H2. destruct (Hnei H1 H2) as [Haw Hkw].
+    destruct (responder_keeps_untracked le sc tw hash txs _ t' _ Er Hkw) as [Hk' Ha'].
+    split; [apply (Ha' a eq_refl); exact Haw|exact Hk'].
+Qed.
+
+(* when the responder does NOT act on a tracker the watcher has just created *)
+Lemma fresh_tracker_untouchable txs h R uuid d p s :
+  memN p txs = false -> mem_uuid uuid R = false ->
+  (forall hk, s = ConfirmedIn hk -> h - hk <> Z.to_N Consts.IRREVOCABLY_RESOLVED) ->
+  (forall hm, s = InMempoolSince hm -> h - Z.to_N Consts.CONFIRMATIONS_BEFORE_RETRY < hm) ->
+  status_accepted s = true ->
+  touchable txs h R (new_trk uuid d p s) = false.
+Proof.
+  intros Hp Hr Hc Hm Ha. unfold touchable. cbn [new_trk t_penalty t_conf t_height]. rewrite new_trk_uuid, Hp, Hr.
+  destruct s as [hk|hm| |c]; try discriminate; cbn [status_conf status_height orb andb negb].
+  - rewrite orb_false_r. apply N.eqb_neq. apply Hc. reflexivity.
+  - apply N.leb_gt. apply Hm. reflexivity.
+Qed.
+
+Lemma add_update_user_apps t u :
+  match gk_add_update_user t u with Ok _ t' | Abort _ t' => db_apps t' = db_apps t end.
+Proof.
+  unfold gk_add_update_user. destruct (gk_get t u) as [ui|].
+  - destruct (u32_add (u_slots ui) (c_slots (cfg t))); reflexivity.
+  - destruct (u32_add (gk_height t) (c_duration (cfg t))); [|reflexivity].
+    destruct (amem (db_users t) u); reflexivity.
+Qed.
+
+Lemma disconnect_apps hash h t :
+  match run_listeners (listener_disconnected hash h) Consts.LISTENER_ORDER t with
+  | Ok _ t' | Abort _ t' => db_apps t' = db_apps t
+  end.
+Proof.
+  change (run_listeners (listener_disconnected hash h) Consts.LISTENER_ORDER t) with
+    (do _, t1 <- gk_block_disconnected t h; do _, t2 <- w_block_disconnected t1 hash h;
+     do _, t3 <- r_block_disconnected t2 hash h; Ok tt t3).
+  unfold gk_block_disconnected, w_block_disconnected, r_block_disconnected.
+  destruct (u32_sub h 1); reflexivity.
+Qed.
+
+(* C01, watch_until_triggered: an appointment that has not been triggered stays in the table,
+   byte-identical, through every step except: a block containing its locator (trigger), a block
+   at which the gatekeeper purges its owner, and a new add_appointment by its owner for the same
+   locator (replacement). *)
+Theorem watch_until_triggered le t o sc t' x a :
+  Inv t -> step le t o sc = (t', x) -> not_abort x ->
+  In a (db_apps t) -> find_trk (db_trks t) (app_uuid a) = None ->
+  In a (db_apps t') \/
+  (exists hash txs, o = OConnect hash txs /\ memN (a_loc a) txs = true) \/
+  (exists hash txs tg, o = OConnect hash txs /\
+                       gk_block_connected (fresh t) (gk_height t + 1) = Ok tt tg /\
+                       amem (db_users t) (a_user a) = true /\ amem (db_users tg) (a_user a) = false) \/
+  (exists b delay sig, o = OAdd (Some (a_user a)) (a_loc a) b delay sig).
+Proof.
+  intros HI Hstep Hna Ha Hnt.
+  destruct o as [u|signer loc b delay sig|signer loc|signer|hash txs|].
+  - left. cbn [step] in Hstep. pose proof (add_update_user_apps (set_rpc_log t []) u) as Hl.
+    destruct (gk_add_update_user (set_rpc_log t []) u); cbn [wrap] in Hstep; injection Hstep as <- <-;
+      rewrite Hl; exact Ha.
+  - cbn [step] in Hstep. change (set_rpc_log t []) with (fresh t) in Hstep.
+    destruct (w_add_appointment sc (fresh t) signer loc b delay sig) as [r t1|] eqn:Ew; cbn [wrap] in Hstep;
+      injection Hstep as <- <-; [|destruct Hna].
+    assert (Hcase : match r with
+                    | AddOk _ _ _ _ => exists u, signer = Some u /\ others_kept (fresh t) t1 (loc, u)
+                    | _ => t1 = fresh t
+                    end).
+    { destruct (ti_get (w_cache (fresh t)) loc) as [d|] eqn:Ec.
+      - pose proof (add_appointment_triggered sc (fresh t) signer loc b delay sig d r t1 Ec Ew) as H.
+        destruct r; try exact H. destruct H as [u [Hs [_ [_ [_ [Hoth _]]]]]]. exists u. split; assumption.
+      - pose proof (add_appointment_stored sc (fresh t) signer loc b delay sig r t1 Ec Ew) as H.
+        destruct r; try exact H. destruct H as [u [Hs [_ [_ [_ [Hoth _]]]]]]. exists u. split; assumption. }
+    destruct r; try (left; rewrite Hcase; exact Ha).
+    destruct Hcase as [u [-> [Hoth _]]].
+    destruct (uuid_eqb (app_uuid a) (loc, u)) eqn:E.
+    + apply uuid_eqb_eq in E. unfold app_uuid in E. injection E as <- <-.
+      right. right. right. exists b, delay, sig. reflexivity.
+    + left. apply uuid_eqb_neq in E. apply (Hoth a E). exact Ha.
+  - left. destruct (get_unchanged le t sc signer loc) as [r Hr]. rewrite Hr in Hstep. injection Hstep as <- <-. exact Ha.
+  - left. destruct (getsub_unchanged le t sc signer) as [r Hr]. rewrite Hr in Hstep. injection Hstep as <- <-. exact Ha.
+  - destruct (memN (a_loc a) txs) eqn:Em; [right; left; exists hash, txs; split; [reflexivity|exact Em]|].
+    destruct (connect_ok le t hash txs sc t' x Hstep Hna) as [tg [tw [Eg [Ew Er]]]].
+    assert (HIg : Inv tg).
+    { pose proof (gk_block_connected_pres Inv (sa_block Inv inv_stable) (fresh t) (gk_height t + 1) (inv_fresh t HI)) as Hp.
+      rewrite Eg in Hp. exact Hp. }
+    destruct (gk_block_connected_spec _ _ _ Eg) as [out [_ [Hug [Hag [Hkg _]]]]].
+    cbn [db_users db_apps db_trks fresh set_rpc_log] in Hug, Hag, Hkg.
+    destruct (memN (a_user a) out) eqn:Eo.
+    + right. right. left. exists hash, txs, tg. split; [reflexivity|]. split; [exact Eg|].
+      split; [apply (inv_fk_app t HI a Ha)|].
+      unfold amem. rewrite Hug, (aget_filter_key (fun k => negb (memN k out))), Eo. reflexivity.
+    + left. assert (Hag' : In a (db_apps tg)) by (rewrite Hag; apply filter_In; split; [exact Ha|rewrite Eo; reflexivity]).
+      assert (Hntg : find_trk (db_trks tg) (app_uuid a) = None).
+      { apply find_trk_None_iff. intros Hi. apply (find_trk_None _ _ Hnt). apply in_map_iff in Hi.
+        destruct Hi as [k [Hu Hk]]. rewrite <- Hu. apply in_map. rewrite Hkg in Hk. apply filter_In in Hk. apply Hk. }
+      destruct (w_block_connected_frame sc tg hash txs _ tw HIg Ew) as [Haw [_ [_ [_ [_ [_ [_ [_ [_ [_ [Hnewk _]]]]]]]]]]].
+      assert (Haw' : In a (db_apps tw)).
+      { rewrite Haw. apply filter_In. split; [exact Hag'|]. unfold survives_block. rewrite Em. reflexivity. }
+      assert (Hntw : find_trk (db_trks tw) (app_uuid a) = None).
+      { apply find_trk_None_iff. intros Hi. apply in_map_iff in Hi. destruct Hi as [k [Hu Hk]].
+        destruct (Hnewk k Hk) as [Hold|[a' [Ha' Hm]]].
+        - apply (find_trk_None _ _ Hntg). rewrite <- Hu. apply in_map. exact Hold.
+        - destruct Hm as [HD [Hu' _]].
+          assert (a' = a) by (apply (app_uuid_inj _ a' a (inv_apps_nodup tg HIg) Ha' Hag'); congruence).
+          subst a'. apply memN_In in HD. congruence. }
+      destruct (responder_keeps_untracked le sc tw hash txs _ t' _ Er Hntw) as [_ Hkeep].
+      apply (Hkeep a eq_refl). exact Haw'.
+  - left. cbn [step] in Hstep. destruct (last_hash (set_rpc_log t [])) as [hash|].
+    + pose proof (disconnect_apps hash (gk_height (set_rpc_log t [])) (set_rpc_log t [])) as Hl.
+      destruct (run_listeners _ _ _); cbn [wrap] in Hstep; injection Hstep as <- <-; rewrite Hl; exact Ha.
+    + injection Hstep as <- <-. exact Ha.
+Qed.
